@@ -1,4 +1,5 @@
 import RR.Model.Blocks
+import RR.Model.Hand
 import RR.Model.Util
 
 /-!
@@ -163,6 +164,8 @@ def handle (args : String) (registry : String → List Nat → Option Block) : S
   | _ => "bad-op"
 
 def registry (name : String) (p : List Nat) : Option Block :=
-  (syncRegistry name p).map SyncSpec.block
+  match syncRegistry name p with
+  | some s => some s.block
+  | none => handRegistry name p
 
 end RR.BlockDriver
